@@ -27,7 +27,7 @@
 //        -> two lines: the result (with tree + witnesses), and the `sstplay …` line for the Lean driver
 //   est  SYS ENV starts <n> (<reals>)*n GOAL cell=<bits> k=<n> att=<n> bias=<bits> seed=<n> iters=<n>   -> result + `estplay …`
 //   kpiece SYS ENV starts <n> (<reals>)*n GOAL cell=<bits> nclose=<n> bias=<bits> seed=<n> iters=<n>   -> result + `kpieceplay …`
-//   pdst SYS ENV starts <n> (<reals>)*n GOAL k=<n> bias=<bits> seed=<n> iters=<n>   -> result + `pdstplay …`
+//   pdst SYS ENV starts <n> (<reals>)*n GOAL k=<n> bias=<bits> seed=<n> iters=<n> [resume=<n> clearsol=<0|1>]   -> result(s) + `pdstplay …`
 //   hist <planner> SYS ENV starts <n> (<reals>)*n GOAL k=<n> bias=<bits> seed=<n> ops (solve <budget> | clear)*
 //   plan <planner> SYS ENV starts <n> (<reals>)*n GOAL k=<n> steer=<0|1> bias=<bits> seed=<n> budget=<n>
 //
@@ -1571,12 +1571,22 @@ static std::string opPdst(const Toks &t, std::string &playLine)
     double bias = needKVbits(t, i, "bias");
     unsigned long seed = needKV(t, i, "seed");
     unsigned long iters = needKV(t, i, "iters");
-    if (i != t.size() || iters > 2000000 || k < 1 || k > 50 || !(bias >= 0) || !(bias <= 1))
+    // optional second solve() on the same planner object: `resume=<iters2> clearsol=<0|1>` (clearsol: the caller clears the
+    // problem definition's solution paths in between)
+    bool doResume = false;
+    unsigned long iters2 = 0, clearsol = 0;
+    if (i < t.size())
+    {
+        iters2 = needKV(t, i, "resume");
+        clearsol = needKV(t, i, "clearsol");
+        doResume = true;
+    }
+    if (i != t.size() || iters > 2000000 || iters2 > 2000000 || k < 1 || k > 50 || !(bias >= 0) || !(bias <= 1))
         throw vp::ParseError("pdst args");
     const std::uint_fast32_t lseed = (std::uint_fast32_t)((seed * 7919u + 12345u) % 4000000000u + 1u);
     playLine = "pdstplay";
     for (size_t j = 1; j < t.size(); ++j)
-        if (t[j].rfind("k=", 0) != 0 && t[j].rfind("seed=", 0) != 0 && t[j].rfind("iters=", 0) != 0)
+        if (t[j].rfind("k=", 0) != 0 && t[j].rfind("seed=", 0) != 0 && t[j].rfind("iters=", 0) != 0 && t[j].rfind("resume=", 0) != 0)
             playLine += " " + t[j];
     playLine += " lseed=" + std::to_string(lseed);
     ompl::RNG::setSeed(seed + 1);
@@ -1614,8 +1624,23 @@ static std::string opPdst(const Toks &t, std::string &playLine)
     auto cnt = std::make_shared<vp::EvalCounter>();
     cnt->fireAt = iters;
     ob::PlannerStatus st = planner->solve(vp::evalCountPtc(cnt));
+    std::string out = showSolution(sys, pdef, st, *si) + " | " + planner->dump(sys);
+    if (doResume)
+    {
+        ev.log += " S";
+        if (clearsol)
+            pdef->clearSolutionPaths();
+        auto cnt2 = std::make_shared<vp::EvalCounter>();
+        cnt2->fireAt = iters2;
+        ob::PlannerStatus st2 = planner->solve(vp::evalCountPtc(cnt2));
+        // with a cleared problem definition the whole solution is comparable; otherwise (it still holds the first path)
+        // only the status, the solution count and the planner state
+        out += " ### " + (clearsol ? showSolution(sys, pdef, st2, *si)
+                                   : std::string("status=") + vp::statusName(st2) + " nsol=" + std::to_string(pdef->getSolutionCount())) +
+               " | " + planner->dump(sys);
+    }
     playLine += " draws" + ev.log;
-    return showSolution(sys, pdef, st, *si) + " | " + planner->dump(sys);
+    return out;
 }
 
 static ob::PlannerPtr makeControlPlanner(const std::string &name, const std::shared_ptr<oc::SpaceInformation> &si, const Sys &sys,
